@@ -276,6 +276,11 @@ _HTTP_RULE = ("stream http: the real httpserver router (real Configure, in-proce
               "documented JSON (not Burrow's types) and compared field by field with the model; Prometheus text is parsed into series. Non-trivial = a 200 answer with a payload or a non-empty scrape.")
 _HTTP_STREAM = {"name": "http", "retry_transient": True, "trivial": r"^(ok|code=(404|tsr|405|301|307).*|code=200 series=-)$", "hist_keys": ["code", "kind"],
                 "scale": {"quick": 1, "thorough": 10}, "seeds": {"quick": 1, "thorough": 3}}
+# C06: "processing finishes without terminating the process" — what the decoder forwards is executed by storage's workers,
+# which recover from nothing: the storage stream is judged here on its bare outcome tokens only (panic / ok / nil)
+PROPS["C06"]["streams"].append(dict(_STORAGE_STREAM, keys=set()))
+PROPS["C06"]["rule"] += (" Stream storage (shared with C01/C08/…), judged here on crashes only: every kind of request the decoder can forward — commits and owner updates for partitions the topic "
+                         "does not have (beyond the count; negative), for unknown clusters, groups and topics — executed by the real storage handlers.")
 # C04 also judges the whole HTTP path: status and lag payloads before and after a /metrics scrape within the cache lifetime
 PROPS["C04"]["streams"].append(dict(_HTTP_STREAM, keys=None, spec_tags=[]))
 PROPS["C04"]["rule"] += (" Stream http (shared with C16/C17): the real HTTP server on the real evaluator and storage; status and lag payloads are compared whole, also after a /metrics scrape "
